@@ -121,6 +121,8 @@ type callerPlan struct {
 	StartDelay  int  `json:"start_delay_us"`
 	CancelAt    int  `json:"cancel_at_us"` // -1: never; measured from run start
 	Late        bool `json:"cancel_after_return"`
+	PreCancel   string `json:"ctx_done_at_call"` // "" | cancelled | expired | timeout (ctx already done, or done within microseconds, when the call is made)
+	TimeoutUs   int    `json:"timeout_us"`
 }
 
 type plan struct {
@@ -128,6 +130,9 @@ type plan struct {
 	ID        string       `json:"id"`
 	Server    string       `json:"server"` // normal | slow | abort | wait-first (no greeting: the client speaks first)
 	CloseDelay int         `json:"close_delay_us"`
+	HandshakeFirst bool    `json:"handshake_first"` // the handshake is completed before the callers start
+	RenegDelay int         `json:"hello_request_delay_us"`
+	Spinners   int         `json:"spinning_callers"`
 	Callers   []callerPlan `json:"callers"`
 	Reader    bool         `json:"reader"`
 	Writer    bool         `json:"writer"`
@@ -143,6 +148,34 @@ type plan struct {
 func mkPlan(r *rand.Rand, seed int64, i int) plan {
 	p := plan{Kind: "mixed", ID: ids[r.Intn(len(ids))].name, Seed: seed, Run: i, CloseAt: -1, CloseKind: "Close"}
 	switch i % 7 {
+	case 1:
+		// contexts that are already done (or done within microseconds) when HandshakeContext is called, before
+		// and after the handshake has completed
+		p.Kind, p.Server = "ctx-done-at-call", "normal"
+		p.HandshakeFirst = r.Intn(3) == 0
+		for k := 1 + r.Intn(3); k > 0; k-- {
+			cp := callerPlan{Cancellable: true, StartDelay: r.Intn(100), CancelAt: -1}
+			switch r.Intn(4) {
+			case 0:
+				cp.PreCancel = "expired"
+			case 1:
+				cp.PreCancel, cp.TimeoutUs = "timeout", 1+r.Intn(60)
+			default:
+				cp.PreCancel = "cancelled"
+			}
+			p.Callers = append(p.Callers, cp)
+		}
+		if r.Intn(2) == 0 {
+			p.Callers = append(p.Callers, callerPlan{StartDelay: r.Intn(200), CancelAt: -1})
+		}
+		return p
+	case 2, 6:
+		// TLS 1.2 peer that asks for a renegotiation (HelloRequest) while a reader sits in Read and other
+		// goroutines keep calling Handshake / HandshakeContext / Write
+		p.Kind, p.Server = "renegotiation", "hello-request"
+		p.RenegDelay = r.Intn(1500)
+		p.Spinners = 2 + r.Intn(3)
+		return p
 	case 3:
 		// Close while the single writer is blocked in the transport (peer stopped reading, no write deadline)
 		p.Kind, p.Server = "stalled-write-close", "normal"
@@ -203,6 +236,9 @@ func (p plan) key() string {
 			early++
 		}
 	}
+	if p.Kind == "ctx-done-at-call" {
+		return fmt.Sprintf("%s/%s/n%d/%s", p.Kind, p.ID, len(p.Callers), map[bool]string{true: "after-handshake", false: "before-handshake"}[p.HandshakeFirst])
+	}
 	if p.Kind != "mixed" {
 		return fmt.Sprintf("%s/%s/n%d", p.Kind, p.ID, len(p.Callers))
 	}
@@ -253,7 +289,156 @@ func serve(ln net.Listener, cfg *tls.Config, mode string, delay time.Duration) {
 	}
 }
 
+// renegotiation: a TLS 1.2 server (the package's own, so that the verif hook can make it write a HelloRequest)
+// asks for a renegotiation while one goroutine sits in Read and others keep calling Handshake, HandshakeContext and
+// Write. Whatever becomes of the renegotiation (this server refuses the new ClientHello), every call must return
+// within the I/O deadline.
+func renegotiation(c *vh.Ctx, p plan) {
+	key := p.key()
+	ln, err := net.Listen("tcp", "127.0.0.1:0")
+	if err != nil {
+		c.Count("listen-failed")
+		return
+	}
+	defer ln.Close()
+	go func() {
+		raw, err := ln.Accept()
+		if err != nil {
+			return
+		}
+		defer raw.Close()
+		raw.SetDeadline(time.Now().Add(ioDeadline))
+		srv := utls.Server(raw, &utls.Config{Certificates: []utls.Certificate{uCert}, MinVersion: utls.VersionTLS12, MaxVersion: utls.VersionTLS12})
+		if err := srv.Handshake(); err != nil {
+			return
+		}
+		if _, err := srv.Write([]byte("hello")); err != nil {
+			return
+		}
+		time.Sleep(time.Duration(p.RenegDelay) * time.Microsecond)
+		if err := srv.VerifSendHelloRequest(); err != nil {
+			return
+		}
+		buf := make([]byte, 256)
+		for {
+			if _, err := srv.Read(buf); err != nil {
+				return
+			}
+		}
+	}()
+	raw, err := net.Dial("tcp", ln.Addr().String())
+	if err != nil {
+		c.Count("dial-failed")
+		return
+	}
+	rc := newRecConn(raw)
+	var id utls.ClientHelloID
+	for _, x := range ids {
+		if x.name == p.ID {
+			id = x.id
+		}
+	}
+	uc := utls.UClient(rc, &utls.Config{ServerName: "example.com", InsecureSkipVerify: true, Renegotiation: utls.RenegotiateFreelyAsClient}, id)
+	uc.SetDeadline(time.Now().Add(ioDeadline))
+	if err := uc.Handshake(); err != nil {
+		c.Count("reneg:handshake-failed")
+		rc.Close()
+		return
+	}
+	if uc.ConnectionState().Version != utls.VersionTLS12 {
+		c.Count("reneg:not-tls12")
+		rc.Close()
+		return
+	}
+	var wg sync.WaitGroup
+	var stop atomic.Bool
+	wg.Add(1)
+	var panicked atomic.Value
+	go func() { // the reader: gets "hello", then the HelloRequest, renegotiates inside Read
+		defer wg.Done()
+		defer stop.Store(true)
+		defer func() {
+			if r := recover(); r != nil {
+				panicked.Store(fmt.Sprint(r))
+			}
+		}()
+		buf := make([]byte, 64)
+		for {
+			if _, err := uc.Read(buf); err != nil {
+				return
+			}
+		}
+	}()
+	var nilRets, errRets atomic.Int64
+	for k := 0; k < p.Spinners; k++ {
+		k := k
+		wg.Add(1)
+		go func() {
+			defer wg.Done()
+			defer func() {
+				if r := recover(); r != nil {
+					panicked.Store(fmt.Sprint(r))
+				}
+			}()
+			for n := 0; !stop.Load() && n < 2000000; n++ {
+				var err error
+				switch (k + n) % 3 {
+				case 0:
+					err = uc.Handshake()
+				case 1:
+					err = uc.HandshakeContext(context.Background())
+				default:
+					if n%64 == 0 {
+						_, err = uc.Write([]byte("x"))
+					} else {
+						err = uc.Handshake()
+					}
+				}
+				if err != nil {
+					errRets.Add(1)
+					return
+				}
+				nilRets.Add(1)
+			}
+		}()
+	}
+	fin := make(chan struct{})
+	go func() { wg.Wait(); close(fin) }()
+	select {
+	case <-fin:
+	case <-time.After(watchdog):
+		c.Fail("deadlock/"+key, fmt.Sprintf("HelloRequest from a TLS 1.2 peer while other goroutines call Handshake/Write: calls still blocked after %v (I/O deadline %v)", watchdog, ioDeadline),
+			p, "blocked", "every call returns within the I/O deadline")
+		rc.Close()
+		return
+	}
+	c.Count("kind:renegotiation")
+	if v := panicked.Load(); v != nil {
+		// a panic is not a return: reported per ClientHelloID (the key carries nothing random)
+		c.Fail("panic/renegotiation/"+p.ID, "Read (or a concurrent Handshake) panicked while handling a HelloRequest from a TLS 1.2 peer (Config.Renegotiation allows renegotiation)",
+			p, v, "Read returns (nil or an error)")
+		rc.Close()
+		return
+	}
+	complete := uc.ConnectionState().HandshakeComplete
+	// callers' results: nil while the connection was complete (or being renegotiated), the stored error afterwards
+	var items []string
+	if nilRets.Load() > 0 {
+		items = append(items, "(RNil, false)")
+	}
+	if errRets.Load() > 0 {
+		items = append(items, "(RHsErr, false)")
+	}
+	c.OracleCase("outcome", fmt.Sprintf("COutcome %s %s %s true %s", vh.Bool(complete), vh.Bool(!complete), vh.Bool(rc.closed.Load()), vh.List(items)),
+		"outcome/"+key, "the callers' results are not an outcome the lock model allows", p, true)
+	uc.Close()
+}
+
 func runPlan(c *vh.Ctx, p plan, scfg *tls.Config) {
+	if p.Kind == "renegotiation" {
+		renegotiation(c, p)
+		return
+	}
 	ln, err := net.Listen("tcp", "127.0.0.1:0")
 	if err != nil {
 		c.Count("listen-failed")
@@ -279,6 +464,13 @@ func runPlan(c *vh.Ctx, p plan, scfg *tls.Config) {
 		stalledWriteClose(c, p, uc, rc)
 		return
 	}
+	if p.HandshakeFirst {
+		if err := uc.Handshake(); err != nil {
+			c.Count("handshake-first-failed")
+			rc.Close()
+			return
+		}
+	}
 	if p.Kind == "implicit-speaks-first" {
 		// generous deadline: a working connection answers within milliseconds, a reader parked on the input lock
 		// that the writer needs returns only when this deadline expires
@@ -300,7 +492,17 @@ func runPlan(c *vh.Ctx, p plan, scfg *tls.Config) {
 		ctx := context.Background()
 		if cp.Cancellable {
 			var cancel context.CancelFunc
-			ctx, cancel = context.WithCancel(ctx)
+			switch cp.PreCancel {
+			case "cancelled":
+				ctx, cancel = context.WithCancel(ctx)
+				cancel()
+			case "expired":
+				ctx, cancel = context.WithDeadline(ctx, time.Now().Add(-time.Second))
+			case "timeout":
+				ctx, cancel = context.WithTimeout(ctx, time.Duration(cp.TimeoutUs)*time.Microsecond)
+			default:
+				ctx, cancel = context.WithCancel(ctx)
+			}
 			cancels[k] = cancel
 			if cp.CancelAt >= 0 {
 				wg.Add(1)
@@ -317,11 +519,11 @@ func runPlan(c *vh.Ctx, p plan, scfg *tls.Config) {
 			} else {
 				err = uc.Handshake()
 			}
-			o := outcome{cancelled: issued[k].Load()}
+			o := outcome{cancelled: issued[k].Load() || ctx.Err() != nil}
 			switch {
 			case err == nil:
 				o.class = "RNil"
-			case errors.Is(err, context.Canceled):
+			case errors.Is(err, context.Canceled) || errors.Is(err, context.DeadlineExceeded):
 				o.class, o.errText = "RCtx", err.Error()
 			default:
 				o.class, o.errText = "RHsErr", err.Error()
@@ -396,7 +598,7 @@ func runPlan(c *vh.Ctx, p plan, scfg *tls.Config) {
 	closed := rc.closed.Load()
 	anyLate := false
 	for _, cp := range p.Callers {
-		anyLate = anyLate || cp.Late
+		anyLate = anyLate || cp.Late || (p.HandshakeFirst && cp.PreCancel != "")
 	}
 	if lateOnly && anyLate {
 		if closed {
@@ -459,13 +661,25 @@ func runPlan(c *vh.Ctx, p plan, scfg *tls.Config) {
 	if complete {
 		c.Count("completed")
 	}
-	c.OracleCase("outcome", fmt.Sprintf("COutcome %s %s %s %s", vh.Bool(complete), vh.Bool(!complete), vh.Bool(closed), vh.List(items)),
+	if p.HandshakeFirst {
+		for k, o := range outs {
+			if o.class != "RNil" {
+				c.Fail("after-complete-not-nil/"+key, "HandshakeContext on a connection whose handshake had completed did not return nil", p,
+					fmt.Sprintf("caller %d: %s", k, o.errText), "nil (and the connection untouched)")
+			}
+		}
+	}
+	c.Count("kind:" + p.Kind)
+	c.OracleCase("outcome", fmt.Sprintf("COutcome %s %s %s false %s", vh.Bool(complete), vh.Bool(!complete), vh.Bool(closed), vh.List(items)),
 		"outcome/"+key, "the callers' results are not an outcome the lock model allows", p, len(outs) > 2)
 	uc.Close()
 }
 
+var uCert utls.Certificate
+
 func run(c *vh.Ctx) {
 	pki := vh.NewTestPKI("example.com")
+	uCert = utls.Certificate{Certificate: [][]byte{pki.LeafDER}, PrivateKey: pki.LeafKey}
 	cert := tls.Certificate{Certificate: [][]byte{pki.LeafDER}, PrivateKey: pki.LeafKey}
 	scfg := &tls.Config{Certificates: []tls.Certificate{cert}, MinVersion: tls.VersionTLS12}
 	const par = 8
